@@ -254,13 +254,19 @@ def replay(payload):
     import tsdate
     from symx import skeletons as SK
     bad = []
-    for name in ("cat3", "root_not_last", "two_tree", "bal4"):
+    for name in ("cat3", "root_not_last", "two_tree", "bal4", "mutation_above_root",
+                 "local_root_mutation"):
         ts = SK.all_named()[name]()
         for method in ("variational_gamma", "inside_outside", "maximization"):
             kw = dict(mutation_rate=0.1, method=method, return_fit=True)
             if method != "variational_gamma":
                 kw["population_size"] = 10
-            out, fit = tsdate.date(ts, **kw)
+            try:
+                out, fit = tsdate.date(ts, **kw)
+            except AssertionError as e:
+                if "rescaling intervals" not in repr(e):
+                    raise
+                out, fit = tsdate.date(ts, rescaling_intervals=0, **kw)   # few mutations (F3)
             if method == "maximization":
                 if any(len(out.node(u).metadata) for u in range(out.num_nodes)
                        if isinstance(out.node(u).metadata, (dict, bytes))):
@@ -286,4 +292,19 @@ def replay(payload):
                 if not (abs(md["mn"] - mean[u]) <= 1e-9 * max(1, abs(mean[u]))
                         and abs(md["vr"] - var[u]) <= 1e-9 * max(1, abs(var[u]))):
                     bad.append((name, method, u, md, float(mean[u]), float(var[u])))
+            if method == "variational_gamma":
+                # mutation metadata equals the fit's mutation posteriors (NaN where the fit has
+                # none, e.g. above a root)
+                mp = fit.mutation_posteriors()
+
+                def same(a, b):
+                    a = float("nan") if a is None else float(a)
+                    return (a != a and b != b) or abs(a - b) <= 1e-9 * max(1, abs(b))
+                for m_ in range(out.num_mutations):
+                    md = out.mutation(m_).metadata
+                    if not isinstance(md, dict) or "mn" not in md:
+                        bad.append((name, method, "mutation", m_, "no mn/vr", md))
+                    elif not (same(md["mn"], mp["mean"][m_]) and same(md["vr"], mp["variance"][m_])):
+                        bad.append((name, method, "mutation", m_, md, float(mp["mean"][m_]),
+                                    float(mp["variance"][m_])))
     return bool(bad), str(bad[:4])
